@@ -132,6 +132,22 @@ def gen_ops(rng, case, thorough):
     if vec:
         rows = rng.randint(1, 3)
         ops.append(dict(op='apply_matrix', arg=[[dy(-8, 8) for _ in range(m)] for _ in range(rows)], **G))
+        # documented argument forms: 'an array of matrices, one for each control point. Standard numpy broadcasting
+        # rules apply': A.shape = ash + (rows, m) with ash the control-net shape, the control-net shape with axes of
+        # size 1, a trailing part of it (leading axes dropped), all ones; and the single matrix as nested lists
+        N_ = [len(k_['kv']) - k_['p'] - 1 for k_ in f['kvs']]
+        forms = [('full', list(N_)), ('ones', [1] * sdim), ('list', [])]
+        if sdim >= 2:
+            forms.append(('tail', list(N_[1:])))
+            one = list(N_)
+            one[rng.randrange(sdim)] = 1
+            forms.append(('mixed', one))
+        for form, ash in forms:
+            rows = rng.randint(1, 3)
+            cnt = rows * m
+            for a_ in ash:
+                cnt *= a_
+            ops.append(dict(op='apply_matrix_pc', form=form, ash=ash, rows=rows, arg=[dy(-8, 8) for _ in range(cnt)], **G))
         if m == 2:
             ops.append(dict(op='rotate_2d', arg=hx(rng.choice([0.5, -1.25, 2.0, math.pi / 2, 3.0, -0.1])), **G))
     if len(tail) >= 1:
@@ -434,7 +450,7 @@ class Checker:
 
 HEADER = '''From Coq Require Import QArith Qcanon ZArith List Bool.
 From Verif.lib Require Import Bsp.
-From Verif.C07 Require Import Model Check.
+From Verif.C07 Require Import Model Check ArgForms.
 Import ListNotations.
 '''
 
@@ -615,6 +631,57 @@ def run_ops(ck):
             if name == 'apply_matrix':
                 coq = 'check_arr %s (%s_matrix F (mat %s) %d%%nat) %s' % (
                     cqc(barr(m, argmax)), 'b' if kind == 'bsp' else 'n', clist([cql(row) for row in A]), len(A), cql([fr(h) for h in r['coeffs']['v']]))
+        elif name == 'apply_matrix_pc':
+            import itertools as _it2
+            ash, rows_ = op['ash'], op['rows']
+            Af = [fr(h) for h in op['arg']]
+            N_ = [len(k_['kv']) - k_['p'] - 1 for k_ in f['kvs']]
+            argmax = max(abs(x) for x in Af) + 1
+            nterms = m
+
+            def A_at(idx, ash=ash, rows_=rows_, Af=Af):
+                # numpy broadcasting: align at the right, axes of size 1 read at 0
+                sub = idx[len(idx) - len(ash):] if ash else []
+                pos = 0
+                for n_, i_ in zip(ash, sub):
+                    pos = pos * n_ + (0 if n_ == 1 else i_)
+                base = pos * rows_ * m
+                return [[Af[base + r_ * m + c_] for c_ in range(m)] for r_ in range(rows_)]
+            # exact control net of the documented map: control point idx mapped by its own matrix (weights unchanged)
+            Cx = [fr(h) for h in f['C']]
+            flat = []
+            for k_, idx in enumerate(_it2.product(*[range(n_) for n_ in N_])):
+                cp = Cx[k_ * m:(k_ + 1) * m]
+                new = [sum(a_ * v_ for a_, v_ in zip(row, cp)) for row in A_at(list(idx))]
+                if kind == 'nurbs':
+                    w_ = fr(f['W'][k_])
+                    new = [x_ * w_ for x_ in new] + [w_]
+                flat += new
+            exp_shape = N_ + [rows_ + (1 if kind == 'nurbs' else 0)]
+            if r['coeffs']['shape'] != exp_shape:
+                ck.fail('op-apply_matrix-percp-shape', 'apply_matrix(A) with A.shape = %s (form %s): coefficient array of shape %s, documented %s' % (
+                    ash + [rows_, m], op['form'], r['coeffs']['shape'], exp_shape), op={'form': op['form'], 'A_shape': ash + [rows_, m]})
+                continue
+            if r.get('output_shape') != [rows_]:
+                ck.fail('op-apply_matrix-percp-shape', 'apply_matrix(A) with A.shape = %s: output shape %s, documented %s' % (ash + [rows_, m], r.get('output_shape'), [rows_]))
+            bnd_ = barr(m, argmax)
+            got_ = [fr(h) for h in r['coeffs']['v']]
+            badk = [k_ for k_, (a_, b_) in enumerate(zip(got_, flat)) if abs(a_ - b_) > bnd_]
+            if badk:
+                ck.fail('op-apply_matrix-percp-coeffs', 'apply_matrix(A) with A.shape = %s (form %s): coefficient %d is %r, control point mapped by its own matrix gives %r' % (
+                    ash + [rows_, m], op['form'], badk[0], float(got_[badk[0]]), float(flat[badk[0]])), op={'form': op['form'], 'A_shape': ash + [rows_, m], 'A': [float(x) for x in Af]})
+            xkvs = [([fr(h) for h in k_['kv']], k_['p']) for k_ in f['kvs']]
+            xf = O.Func(xkvs, N_, rows_ + (1 if kind == 'nurbs' else 0), flat)
+            expected = lambda xs, xf=xf: res_value(xf, cls, xs)
+            coq = 'check_arr %s (%s_matrix_pc F (arrA %s %d%%nat %d%%nat %s) %d%%nat) %s' % (
+                cqc(bnd_), 'b' if kind == 'bsp' else 'n', clist(['%d%%nat' % a_ for a_ in ash]), rows_, m, cql(Af), rows_, cql(got_))
+            ge = ck.route(r['grid_eval'], 'apply_matrix(per-control-point).grid_eval', [len(ax_) for ax_ in op['grid']] + [rows_])
+            if ge is not None:
+                vb = barr(m, argmax, 4 * (1 + cmax) * wr * 4)
+                for k_, xs in enumerate(pts_res):
+                    ex_ = expected(xs)
+                    ck.cmp('op-apply_matrix-percp-values', ge[k_ * rows_:(k_ + 1) * rows_], ex_, vb * (1 + max(abs(x_) for x_ in ex_)),
+                           'apply_matrix(A.shape=%s): grid_eval of the result differs from the spline of the mapped control points' % (ash + [rows_, m],), xs)
         elif name == 'getitem':
             a = op['arg']
             n = tail[-1]
@@ -1259,6 +1326,7 @@ def classify(code, ck):
 
 def run(ctx):
     ctx.obligations_stage(PROPS, extra_targets=['C07/Examples.vo', 'C07/Check.vo'], gate_dirs=['C02'])
+    ctx.obligations_stage('C07/Props3.v', extra_targets=['C07/Examples3.vo', 'C07/ArgForms.vo'])
     ctx.assumptions += [
         'model: hand transcription of BSplineFunc/NurbsFunc evaluation routes, boundary extraction and the coefficient-level '
         'operations of bspline.py/geometry.py into Gallina over Qc (coq/C07/Model.v) on top of the kernels of coq/lib/Bsp.v',
